@@ -113,6 +113,57 @@ PROPS = {
         partial="c28_tag_range_partial (0 not excluded; full statement refuted by /m/c/leaf-259424739); distinctness of sibling numbers refuted "
                 "(c28_tags_distinct_refuted); well-formedness of generated files for all schemas is an oracle result with ten known-finding classes.",
     ),
+    "C06": dict(
+        level="proof",
+        technique="Coq proof (Number order, range/length membership, fixYangRegexp case analysis, matcher = declarative regex semantics, anchored search = whole match, parser commutes with wrapping) + differential correspondence check + independent matcher oracle",
+        claim="The five Validate*Restrictions accept exactly the values inside the union of range parts (integers; decimal64 given the Number the value stands for) / "
+              "length parts (strings by characters, binary by bytes): c06_int_range, c06_uint_range, c06_decimal_range, c06_string_length, c06_binary_length, on top of "
+              "number_less_spec (yang.Number.Less = order of the denoted rationals for <=18 fraction digits). Patterns: fix_shape (+ one lemma per case of fixYangRegexp), "
+              "parse_wrap, anchored_search and c06_pattern_partial: for a plain pattern the verdict is membership of the whole value in the regular language of the pattern.",
+        note="Trusted: Coq kernel; hand transcription of goyang Number, ytypes validators, util.fixYangRegexp and of Go's regexp parser/matcher for the supported subset, tied by "
+             "streams 'restrict' and 'regex' (sanitized text, compile status, MatchString of raw and sanitized patterns, verdicts); \\d \\w \\s . have Go's ASCII meaning; the "
+             "float64 -> decimal Number conversion is the harness's reference (shortest decimal text), not modelled in Coq.",
+        coq_files=["Scalar/Number", "Scalar/NumberSpec", "Scalar/NumberProofs", "Scalar/Regex", "Scalar/RegexProofs", "Scalar/FixRegexp",
+                   "Scalar/FixRegexpProofs", "Scalar/RegexParseProofs", "Scalar/Restrict", "Scalar/RestrictProofs", "Corr/RestrictCorr"],
+        streams=[dict(name="restrict", n=N(1200, 6000)), dict(name="regex", n=N(2000, 12000))],
+        signatures=["regex", "range", "length", "number", "decimal", "oracle"],
+        trusted=[UTF8, "regex subset: literals, ., punctuation escapes, \\d\\w\\s and negations, classes, * + ? {n,m}, |, groups, ^ $; anything else is PUnsup and counts as a mismatch"],
+        assumptions=[UTF8],
+        partial="c06_pattern_partial is guarded by plainb (non-empty, no leading ^, no trailing $); the c06_refuted_* theorems are stated for the pre-fix configuration cfg_now and "
+                "document the repaired defects; posix patterns and several patterns: correspondence only; empty pattern and posix multi-line anchors are known findings.",
+    ),
+    "C15": dict(
+        level="proof",
+        technique="Coq proof (representation invariant + simulation by induction over arbitrary call sequences) + differential correspondence check + reference-map oracle",
+        claim="A transcription of goOrderedMapTemplate/goOrderedMapParentMethodsTemplate (Append, AppendNew, Delete, Get, Keys, Values, Len, nil receivers, parent helpers) keeps "
+              "NoDup keys /\\ keys = dom valueMap (c15_inv), refines an insertion-ordered list of bindings with unique keys with equal outputs for every call (c15_refines, "
+              "c15_abs_unique), rejects nil entries / nil key fields / duplicates without change (c15_reject_no_change, c15_append_rejects, c15_appendnew_rejects), appends accepted "
+              "entries at the end (c15_append_accepts), for any key type and any call sequence. Compared with the generated code of every ordered list of every generated package on "
+              "every run; plain-Go insertion-ordered map in lockstep, mutation of Keys()/Values() results, order through DeepCopy / RFC7951 JSON / gNMI.",
+        note="Trusted: Coq kernel; hand transcription of the Go text templates tied behaviourally through the generated code (stream 'ordmap'); entries are values (pointer aliasing "
+             "outside the model); nil valueMap identified with empty.",
+        coq_files=["Gen/GoMap", "Gen/GoMapProofs", "Gen/OrderedMap", "Gen/OrderedMapProofs", "Corr/OrdMapCorr"],
+        streams=[dict(name="ordmap", n=N(300, 1200))],
+        signatures=["refmodel", "state", "alias", "roundtrip", "panic", "append-accepts-unset-key"],
+        trusted=["keys abstracted to indices of a per-case key domain, entry pointers to ids (harness)"],
+        partial="Order preservation through JSON/gNMI/DeepCopy and non-aliasing of Keys()/Values() are checked on the implementation only. 'nil keys rejected' is proved for "
+                "pointer-typed keys (c15_nil_keys_rejected_partial) and refuted for enum/union keys (c15_nil_keys_refuted_enum_union).",
+    ),
+    "C34": dict(
+        level="proof",
+        technique="Coq proof (invariant + refinement of a finite map by induction over arbitrary call sequences) + differential correspondence check + reference-map oracle",
+        claim="A transcription of the New/GetOrCreate/Get/Append/Delete/Rename/GetOrCreateMap templates of gogen/unordered_list.go stores every entry under its own key (c34_inv), "
+              "refines K -> option V with equal outputs (c34_refines), New/Append reject duplicates (Append nil key fields) leaving the state unchanged "
+              "(c34_new_append_reject_dup_no_change), GetOrCreate is idempotent and never panics, Get is pure, Rename moves the entry and rewrites its key leaves, for any key type and "
+              "any call sequence. Compared with the generated helpers of every keyed list (all key types, single/multi key, nested) of every generated package on every run.",
+        note="Trusted: Coq kernel; hand transcription tied by stream 'keyedmap'; entries are values (aliasing outside the model).",
+        coq_files=["Gen/GoMap", "Gen/GoMapProofs", "Gen/KeyedMap", "Gen/KeyedMapProofs", "Corr/KeyedMapCorr"],
+        streams=[dict(name="keyedmap", n=N(800, 2500))],
+        signatures=["refmodel", "state", "panic", "entry-key-mismatch", "append-accepts-unset-key", "wrapper-union-key-identity"],
+        trusted=["keys abstracted to indices of a per-case key domain, entry pointers to ids (harness)"],
+        partial="'Append rejects nil keys' holds for pointer-typed key fields (c34_append_rejects_nil_partial) and is refuted for enum/identityref/union keys (known finding); uniqueness "
+                "of YANG key values is refuted for wrapper unions (known finding).",
+    ),
 }
 
 NOT_APPLICABLE = {}
